@@ -28,9 +28,12 @@ def run(tier):
     corpus = [(name, p, root, render(p, root)) for name, p, root in gen_loops.loops()]
     only = os.environ.get("VERIF_C11_ONLY")
     if only:
-        corpus = [c for c in corpus if c[0] == only.replace("@thread", "")]
-    # every program also runs in a state made by NewThread with the context attached to that state
-    corpus = corpus + [(name + "@thread", p, root, src) for name, p, root, src in corpus]
+        corpus = [c for c in corpus if c[0] == only.replace("@thread", "").replace("@fresh", "")]
+    # every program also runs in a state made by NewThread with the context attached to that state, and - when it
+    # needs no library - as the very first call on a state on which nothing has run before
+    LIBNAMES = ("pcall", "xpcall", "error", "coroutine", "setmetatable", "select", "type", "tostring", "ipairs", "pairs", "unpack", "string", "table", "math")
+    nolib = [c for c in corpus if not any(nd.get("k") == "id" and nd.get("n") in LIBNAMES for nd in c[1].nodes[1:])]
+    corpus = corpus + [(name + "@thread", p, root, src) for name, p, root, src in corpus] + [(name + "@fresh", p, root, src) for name, p, root, src in nolib]
     runs, index = [], {}
     for ci, (name, p, root, src) in enumerate(corpus):
         for k in range(1, K + 1):
@@ -39,6 +42,8 @@ def run(tier):
             run = {"id": rid, "src": src, "fault": {"mode": "cancel", "k": k}, "budget": 200000}
             if name.endswith("@thread"):
                 run["opts"] = {"thread": True}
+            if name.endswith("@fresh"):
+                run["opts"] = {"fresh": True}
             runs.append(run)
     outs = lsem.run_real(runs, "c11", timeout=2400)
     recs = []
@@ -117,6 +122,22 @@ def run(tier):
         else:
             verd.candidate("C11:undone-context-changes-behaviour", "program behaves differently with an (undone) context attached", {"program": p, "with": a, "without": b})
     vlib.log("[C11] context attached (undone) vs no context: %d/%d identical traces" % (same, len(progs)))
+    # the same for channel operations (they take a different path when a context is attached)
+    chprogs = [{"id": i + 1, "fam": "chan", "src": src} for i, src in enumerate(channel_scripts())]
+    cw = lsem.run_real(chprogs, "c11chctx")
+    cn = lsem.run_real([dict(p, opts={"noctx": True}) for p in chprogs], "c11chnoctx")
+    chsame = 0
+    for p in chprogs:
+        a, b = cw[p["id"]], cn[p["id"]]
+        if b["outcome"][0] not in ("ok", "err"):
+            raise vlib.Infra("channel script %d without a context ended %s" % (p["id"], b["outcome"]))
+        if a["emits"] == b["emits"] and a["outcome"][:2] == b["outcome"][:2]:
+            chsame += 1
+        else:
+            verd.candidate("C11:undone-context-changes-behaviour:channel", "channel script behaves differently with an (undone) context attached", {"program": p, "with": a, "without": b})
+    vlib.log("[C11] channel scripts, context attached (undone) vs no context: %d/%d identical traces" % (chsame, len(chprogs)))
+    same += chsame
+    progs = progs + chprogs
     rc = verd.finish()
     if rc == 0 and undecided:
         # nothing wrong was seen, but too little was decided to say the property held
@@ -135,6 +156,29 @@ def run(tier):
         "blocking channel operations are sampled with a real context and a 4 s bound",
         "the spec prefix is bounded by MaxSteps; cancel points beyond it are counted as undecided"])
     return rc
+
+
+def channel_scripts():
+    """single-state channel scripts (buffered channels, so nothing blocks): send/receive/close and channel.select
+    with the ready case and the default case in every position, with and without handlers"""
+    import itertools
+    out = []
+    pre = "local ch1, ch2, ch3 = channel.make(2), channel.make(1), channel.make(1)\n"
+    # at most one non-default case is ready at any select (Go chooses among several ready cases at random)
+    for fill1, fill2 in ((1, 1), (0, 0), (0, 1)):
+        setup = pre + ("ch1:send('m1') ch1:send('m2')\n" if fill1 else "") + ("ch2:send('full')\n" if fill2 else "")
+        cases = {"recv": '{"|<-", ch1%s}', "send": '{"<-|", ch2, "v"%s}', "default": '{"default"%s}', "recv3": '{"|<-", ch3%s}'}
+        hs = {"recv": ', function(ok, v) emit("h-recv", ok, v) end', "send": ', function() emit("h-send") end',
+              "default": ', function() emit("h-default") end', "recv3": ', function(ok, v) emit("h-recv3", ok, v) end'}
+        for names in itertools.chain(itertools.permutations(["recv", "send", "default"]), itertools.permutations(["recv3", "default"]),
+                                     itertools.permutations(["recv", "default", "recv3"]), [("default",)], itertools.permutations(["send", "default"])):
+            for withh in (False, True):
+                sel = "channel.select(" + ", ".join(cases[n] % (hs[n] if withh else "") for n in names) + ")"
+                out.append(setup + "for i = 1, 3 do emit('sel', %s) end\nemit('rest', channel.select({'|<-', ch1}, {'default'}))\n" % sel)
+    out.append(pre + "ch1:send(1) ch1:send(2) emit(ch1:receive()) emit(ch1:receive()) ch1:close() emit(ch1:receive()) emit(pcall(ch1.send, ch1, 3))\n")
+    out.append(pre + "ch2:send({1, 2}) local ok, t = ch2:receive() emit(ok, t[1], t[2]) emit(pcall(ch2.send, ch2, setmetatable({}, {})))\n")
+    out.append(pre + "ch1:send(1) ch1:close() emit(channel.select({'|<-', ch1}, {'default'})) emit(channel.select({'|<-', ch1}, {'default'})) emit(channel.select({'default'}, {'|<-', ch1}))\n")
+    return out
 
 
 def replay(path):
